@@ -6,7 +6,8 @@ s/swarmutil). `run sk {} ls = some s`: `s` is reachable by the transition sequen
 and deliverers, any interleaving, cancellations and close at any point. Which cases the selects offer is read
 from the source on every run (`Skel.tell`, `Skel.ask`). "Promptly" is stated as enabledness: a cancelled or
 closed-out participant always has its own return transition available and nothing forces it elsewhere; wall-clock
-latency and select fairness are outside the model (DESIGN.md section 6). -/
+latency and select fairness are outside the model (DESIGN.md section 6).
+(Bound variables carry explicit types — `(i : Nat) (r : R)` … — because `s.rs[i]?` alone does not let Lean infer them.) -/
 namespace P2PVerif.C13
 open P2PVerif P2PVerif.Hub
 
@@ -24,24 +25,24 @@ theorem skeleton_ok :
     and every number of receivers and producers; a receiver inside a callback holds a message that was started. -/
 theorem exactly_one_receiver (sk : Skel) (ls : List Lbl) (s : St) (hr : run sk {} ls = some s) :
     s.started.Nodup ∧
-    (∀ i i' r r' j, s.rs[i]? = some r → s.rs[i']? = some r' → r.pc = .inCb j → r'.pc = .inCb j → i = i') ∧
-    (∀ i r j, s.rs[i]? = some r → r.pc = .inCb j → j ∈ s.started) :=
+    (∀ (i i' : Nat) (r r' : R) (j : Nat), s.rs[i]? = some r → s.rs[i']? = some r' → r.pc = .inCb j → r'.pc = .inCb j → i = i') ∧
+    (∀ (i : Nat) (r : R) (j : Nat), s.rs[i]? = some r → r.pc = .inCb j → j ∈ s.started) :=
   Hub.exactly_one_receiver sk ls s hr
 
 /-- ⊢ a delivery call returns success only after its callback has finished with the message (and returns that
     callback's result), and an error only if no callback ever saw the message. -/
 theorem deliver_result_truthful (sk : Skel) (ls : List Lbl) (s : St) (hr : run sk {} ls = some s) :
-    (∀ j d n, s.ds[j]? = some d → d.pc = .done .ok n → (j, n) ∈ s.finished ∧ j ∈ s.started) ∧
-    (∀ j d r n, s.ds[j]? = some d → d.pc = .done r n → r ≠ .ok → j ∉ s.started) ∧
+    (∀ (j : Nat) (d : D) (n : Nat), s.ds[j]? = some d → d.pc = .done .ok n → (j, n) ∈ s.finished ∧ j ∈ s.started) ∧
+    (∀ (j : Nat) (d : D) (r : Res) (n : Nat), s.ds[j]? = some d → d.pc = .done r n → r ≠ .ok → j ∉ s.started) ∧
     (∀ j n, (j, n) ∈ s.finished → j ∈ s.started) :=
   Hub.deliver_result_truthful sk ls s hr
 
 /-- ⊢ cancellation: a participant whose context is done and which is parked in its blocking select can always
     return the context's error, and nothing else is ever *forced* on it. (Receivers; deliverers likewise.) -/
 theorem cancel_enabled (sk : Skel) (hg : sk.good = true) (s : St) :
-    (∀ i r, s.rs[i]? = some r → r.pc = .sel2 → r.ctx = true →
+    (∀ (i : Nat) (r : R), s.rs[i]? = some r → r.pc = .sel2 → r.ctx = true →
         ∃ s', step sk s (.rSel2Ctx i) = some s' ∧ (s'.rs[i]?).map (·.pc) = some (.done .ctxErr)) ∧
-    (∀ j d, s.ds[j]? = some d → d.pc = .sel → d.ctx = true →
+    (∀ (j : Nat) (d : D), s.ds[j]? = some d → d.pc = .sel → d.ctx = true →
         ∃ s', step sk s (.dCtx j) = some s' ∧ (s'.ds[j]?).map (·.pc) = some (.done .ctxErr 0)) :=
   Hub.cancel_enabled sk hg s
 
@@ -57,9 +58,28 @@ theorem cancel_loses_nothing (sk : Skel) (s s' : St) (i : Nat) (l : Lbl)
 theorem queue_slots_conserved (cap mtu : Nat) (ops : List QOp) :
     let q := ops.foldl Queue.step (Queue.new cap mtu)
     (q.free ++ q.queue.map (·.1) ++ q.inCb.map (·.2.1)).Nodup ∧
-    (q.closed = false → (q.free ++ q.queue.map (·.1) ++ q.inCb.map (·.2.1)).length = cap) ∧
+    -- original: (q.closed = false → (q.free ++ q.queue.map (·.1) ++ q.inCb.map (·.2.1)).length = cap)
+    -- false when a receiver id is reused while it is still inside a callback: `Queue.cbReturn r` drops every
+    -- `inCb` entry of `r` but frees one slot. Counterexample (cap 2): deliver, deliver, take 0, take 0, cbReturn 0
+    -- leaves free = [1], queue = [], inCb = [] (one slot lost) — see the `example` below. Each `Receive` call is
+    -- one participant, so the exact count is stated for op sequences with fresh receiver ids (`Hub.FreshTakes`,
+    -- Lemmas/HubQueue.lean: no `take r` while `r` is in a callback). Distinctness and the bound need no hypothesis.
+    (FreshTakes (Queue.new cap mtu) ops → q.closed = false →
+      (q.free ++ q.queue.map (·.1) ++ q.inCb.map (·.2.1)).length = cap) ∧
     q.queue.length ≤ cap :=
   Hub.queue_slots_conserved cap mtu ops
+
+-- the counterexample to the unconditional count (a model artefact: one receiver id inside two callbacks)
+example :
+    let q := List.foldl Queue.step (Queue.new 2 100)
+      [.deliver ⟨0, 0, []⟩ false, .deliver ⟨0, 0, []⟩ false, .take 0, .take 0, .cbReturn 0]
+    q.closed = false ∧ (q.free ++ q.queue.map (·.1) ++ q.inCb.map (·.2.1)).length = 1 := by decide
+
+-- `FreshTakes` rejects exactly that sequence, and admits a receiver that calls `Receive` again after returning
+example : ¬ FreshTakes (Queue.new 2 100)
+    [.deliver ⟨0, 0, []⟩ false, .deliver ⟨0, 0, []⟩ false, .take 0, .take 0, .cbReturn 0] := by decide
+example : FreshTakes (Queue.new 2 100)
+    [.deliver ⟨0, 0, []⟩ false, .take 0, .cbReturn 0, .deliver ⟨0, 0, []⟩ false, .take 0, .take 1] := by decide
 
 /-- ⊢ the queue is first-in first-out and a cancelled Receive loses nothing: `take` yields the oldest delivered
     message, a cancelled receiver leaves the queue as it is. -/
